@@ -50,6 +50,11 @@ pub fn gen_pattern(rng: &mut Rng, n: usize) -> String {
 
 pub fn gen_len(rng: &mut Rng) -> usize {
     match rng.below(40) {
+        // lengths at and around powers of two (buffer and capacity boundaries)
+        9 => {
+            let k = rng.range(4, 13);
+            ((1usize << k) + rng.range(0, 2)).saturating_sub(1)
+        }
         0 | 1 => 1,
         2 | 3 => 2,
         4..=6 => rng.range(13, 48),
@@ -64,8 +69,55 @@ pub fn gen_len(rng: &mut Rng) -> usize {
     }
 }
 
+/// Real sentences: the repository's own corpora and documentation examples. Generated models
+/// rarely match them, but the repository's real models do (see `mmodel::real_models`).
+pub fn corpus() -> &'static [String] {
+    static CORPUS: std::sync::OnceLock<Vec<String>> = std::sync::OnceLock::new();
+    CORPUS.get_or_init(|| {
+        let mut v: Vec<String> = ["まぁ社長は火星猫だ", "まぁ良いだろう", "火星に行きました", "Rustで良いプログラミング体験を！", "東京特許許可局", "ヴェネツィアはイタリアにあります。", "2021年8月24日"]
+            .iter()
+            .map(|s| s.to_string())
+            .collect();
+        #[cfg(not(miri))]
+        {
+            let repo = std::env::var("VERIF_REPO").unwrap_or_else(|_| "/repo".into());
+            for f in ["resources/docs.tok", "vaporetto_tantivy/test_model/test_corpus.tok"] {
+                if let Ok(t) = std::fs::read_to_string(std::path::Path::new(&repo).join(f)) {
+                    for line in t.lines() {
+                        if let Some(e) = crate::refparse::tokenized(line) {
+                            if !v.contains(&e.raw) {
+                                v.push(e.raw);
+                            }
+                        }
+                    }
+                }
+            }
+        }
+        v
+    })
+}
+
 /// A valid raw text (non-empty, no NUL).
 pub fn gen_text(rng: &mut Rng) -> String {
+    if rng.chance(1, 10) {
+        // a real sentence, a piece of one, or two glued together
+        let c = corpus();
+        let a: Vec<char> = rng.pick(c).chars().collect();
+        return match rng.below(4) {
+            0 => {
+                let i = rng.below(a.len());
+                let j = rng.range(i + 1, a.len());
+                a[i..j].iter().collect()
+            }
+            1 => {
+                let mut s: String = a.into_iter().collect();
+                let second: &String = rng.pick(c);
+                s.push_str(second);
+                s
+            }
+            _ => a.into_iter().collect(),
+        };
+    }
     let n = gen_len(rng);
     gen_text_n(rng, n)
 }
